@@ -99,7 +99,7 @@ def gen(pid, tier, rng, n=None):
         return gen_c08(tier, rng, n)
     for i in range(n):
         b = shapes.B(f"{pid.lower()}_{i}")
-        u = histgen.Universe(rng, b, nleaves=(2, 5), ncolls=(1, 4), poison=0.9 if pid == "C10" else 0.25,
+        u = histgen.Universe(rng, b, nleaves=(2, 5), ncolls=(1, 4), poison=0.9 if pid == "C10" else (0.5 if pid == "C02" else 0.25),
                              depth=rng.choice([0, 1, 1, 2]))
         if pid == "C10":
             # contended wrappers: a few acquirable roots only, most of them poisonable or containing one
@@ -145,7 +145,7 @@ def gen(pid, tier, rng, n=None):
                     u.roots.append(others[-1])
         progs = []
         for t in range(nt):
-            progs.append((t, thread_prog(rng, u, rng.randint(1, 3), (pid in ("C01", "C03", "C05") and rng.random() < 0.3) or (pid == "C10" and rng.random() < 0.8),
+            progs.append((t, thread_prog(rng, u, rng.randint(1, 3), (pid in ("C01", "C02", "C03", "C05") and rng.random() < 0.3) or (pid == "C10" and rng.random() < 0.8),
                                          2 if pid == "C02" else 1, only if t == 0 else (others if others and rng.random() < 0.8 else None),
                                          sh0 if t == 0 else 0.35, sweep=0.35 if pid == "C02" else 0.0)))
         handoff = None
